@@ -168,7 +168,7 @@ PROPS.update({
 PROPS.update({
     "C16": dict(
         custom="c16", cfgs=["D", "C", "A", "CA", "N", "NC"],
-        rule="a base alphabet of ~250 inputs covering every path class is parsed (1) through every iterator shape (Chain split at every position, Filter with separators in every 1-3-periodic pattern, Skip/Take, SkipWhile/TakeWhile, Rev, wrapped VecDeque, LinkedList, Flatten, a deep-cloning iterator with size_hint (0,None)) and at every alignment offset on heap and stack; (2) after every ordered pair / triple of earlier calls with the stack painted 0x00/0xFF/0xA5; (3) under loom in every call-level interleaving of 2x2, 3x1 and 2x3 callers; (4) from 16 free-running threads (the alphabet in rotated orders, and a fast-path hammer of 400 k iterations per thread over 360 short inputs of both formats - a stress pass, i.e. sampling of schedules, that checks the independence premise) and under Miri's race detector. Every result must equal the slice-iterator result of the same input parsed in a process of its own (one call per process, so no state that survives between calls can leak into the reference).",
+        rule="a base alphabet of ~250 inputs covering every path class is parsed (1) through every iterator shape (Chain split at every position, Filter with separators in every 1-3-periodic pattern, Skip/Take, SkipWhile/TakeWhile, Rev, wrapped VecDeque, LinkedList, Flatten, a deep-cloning iterator with size_hint (0,None), a non-fused iterator that yields more bytes after its first None) and at every alignment offset on heap and stack; (2) after every ordered pair / triple of earlier calls with the stack painted 0x00/0xFF/0xA5; (3) under loom in every call-level interleaving of 2x2, 3x1 and 2x3 callers; (4) from 16 free-running threads (the alphabet in rotated orders, and a fast-path hammer of 400 k iterations per thread over 360 short inputs of both formats - a stress pass, i.e. sampling of schedules, that checks the independence premise) and under Miri's race detector. Every result must equal the slice-iterator result of the same input parsed in a process of its own (one call per process, so no state that survives between calls can leak into the reference).",
         exhaustive_over={"quick": "shapes x ~250 inputs x 2 formats; all ordered pairs over the alphabet + 21^3 triples x 3 paints; loom: all interleavings (6225 executions for 3x1, all 20 publication orders for 2x3); Miri with 2 schedule seeds",
                          "thorough": "45^3 triples, loom also in compact and alloc builds, 8 Miri seeds, 40 rounds of free-running threads"},
         assumptions=["intra-call interleavings are covered by independence (calls share no writable memory), a premise checked by the race detector and free-running threads rather than enumerated",
